@@ -439,7 +439,7 @@ class Cfg:
         g("seg", [8, 1, 2, 3, 5, 16, 64, 200, 1024, None][t.choose(10, "seg")])
         g("mpl_sel", t.choose(6, "mpl_sel"))
         g("size_sel", t.weighted([4, 2, 2, 2, 2, 2, 3, 2, 1, 1], "size_sel"))
-        g("dst_shape", t.weighted([4, 2, 2], "dst_shape"))
+        g("dst_shape", t.weighted([4, 2, 2, 1], "dst_shape"))
         g("imm_nak", not bool(t.choose(2, "imm_nak")))
         g("ack_s", [1.0, 0.5, 2.0, 3.7][t.choose(4, "ack_s")])
         g("ack_lim", [2, 1, 3, 4][t.choose(4, "ack_lim")])
@@ -742,9 +742,12 @@ class World:
         self.src_path = "src/a.bin"
         if not c.metadata_only:
             st.h_put(self.src_path, self.src_bytes)
-        if c.dst_shape == 1:
+        if c.dst_shape in (1, 3):
             self.dst_req = "dst"
             self.dst_path = "dst/a.bin"
+            if c.dst_shape == 3:
+                # the destination directory already holds a (longer) file with the source's base name
+                st.h_put(self.dst_path, b"OLDER" * (c.size // 5 + 7))
         else:
             self.dst_req = "dst/out.bin"
             self.dst_path = "dst/out.bin"
